@@ -209,6 +209,16 @@ def run(c, a):
             scheds += [{"n": n, "cmds": x, "est": True} for x in got]
             nest += len(got)
         c.coverage["establisher_probe_schedules"] = nest
+        # the REAL receiver provider (receiver.go, TLS on) with good and silent inbound peers. A silent attempt costs the
+        # unchanged tree yamux's 10s write timeout, so only behaviours with a Silent are run, each in a process of its own
+        # (in parallel with the other shards): quick = the two where a good peer queues behind the silent one
+        got = [x for x in collect("rcv_n1.cfg", 1, workers=2) if any(y["a"] == "Silent" for y in x)]
+        exhaustive.append("rcv_n1: %d behaviours with a silent peer" % len(got))
+        if c.tier == "quick":
+            want = [["Silent", "Good", "Cancel"], ["Good", "PeerClose", "Silent", "Good", "Cancel"]]
+            got = [x for x in got if [y["a"] for y in x] in want]
+        scheds += [{"n": 1, "cmds": x, "rcv": True} for x in got]
+        c.coverage["receiver_probe_schedules"] = len(got)
         scheds = scheds + loops
         for i, s in enumerate(scheds):
             s["id"] = "s%d" % i
@@ -218,13 +228,20 @@ def run(c, a):
         c.coverage["truncated_behaviours"] = truncated[0]
     # ---- 3. real code
     binpath = c.go_test_build("transport/mux", HARNESS, name="muxpool")
-    nshard = min(NCPU, max(1, len(scheds) // 20))
+    rcv = [s for s in scheds if s.get("rcv")]
+    main = [s for s in scheds if not s.get("rcv")]
+    nshard = min(max(1, NCPU - len(rcv)), max(1, len(main) // 20))
     nloop = sum(1 for s in scheds if s.get("loop"))
     files = []
+    for i, s in enumerate(rcv):         # first, each alone: they take 10s+ by construction
+        p = os.path.join(c.scratch, "muxpool-in-rcv%d.ndjson" % i)
+        with open(p, "w") as f:
+            f.write(json.dumps(s) + "\n")
+        files.append(p)
     for i in range(nshard):
         p = os.path.join(c.scratch, "muxpool-in-%d.ndjson" % i)
         with open(p, "w") as f:
-            for s in scheds[i::nshard]:
+            for s in main[i::nshard]:
                 f.write(json.dumps(s) + "\n")
         files.append(p)
     res = c.run_shards(binpath, "^TestVerifMuxPoolSchedules$", files, os.path.join(c.scratch, "muxpool-out"),
@@ -313,7 +330,7 @@ def run(c, a):
                     % (txt.split("\n")[0][:200], "; ".join(frames), running and running["id"]),
                     {"kind": "muxpool-crash", "clause": "crash", "schedule": running, "panic": txt[:3000]})
     for s in scheds:
-        if s.get("loop"):       # a loopback schedule is recorded as two runs, one per pool
+        if s.get("loop") or s.get("rcv"):       # a loopback schedule is recorded as two runs, one per pool
             by_id[s["id"] + "/establisher"] = s
             by_id[s["id"] + "/receiver"] = s
     bad_runs = set()
